@@ -796,6 +796,15 @@ impl DefaultPhysicalPlanner {
                 ..
             }) => {
                 if let Some(provider) = target.downcast_ref::<DefaultTableSource>() {
+                    // DELETE has no FROM / USING clause, so a join in its input
+                    // is a subquery predicate that cannot be expressed as a
+                    // filter on the target table. Without this check no filter
+                    // would be extracted and every row would be deleted.
+                    if input.exists(|plan| Ok(matches!(plan, LogicalPlan::Join(_))))? {
+                        return not_impl_err!(
+                            "DELETE with a subquery in the WHERE clause is not supported"
+                        );
+                    }
                     let filters = extract_dml_filters(input, table_name)?;
                     provider
                         .table_provider
@@ -2229,6 +2238,13 @@ fn extract_dml_filters(
     input: &Arc<LogicalPlan>,
     target: &TableReference,
 ) -> Result<Vec<Expr>> {
+    // The optimizer replaces the input by an `EmptyRelation` when the predicate
+    // can never be true (e.g. `WHERE false`): no row is affected. Returning no
+    // filters here would mean "all rows".
+    if dml_input_produces_no_rows(input) {
+        return Ok(vec![datafusion_expr::lit(false)]);
+    }
+
     let mut filters = Vec::new();
     let mut allowed_refs = vec![target.clone()];
 
@@ -2267,6 +2283,23 @@ fn extract_dml_filters(
                         filters.extend(split_conjunction(filter).into_iter().cloned());
                     }
                 }
+            }
+            // `IN` / `EXISTS` subquery predicates are planned as semi / anti / mark
+            // joins and cannot be expressed as a filter on the target table
+            LogicalPlan::Join(join)
+                if matches!(
+                    join.join_type,
+                    JoinType::LeftSemi
+                        | JoinType::LeftAnti
+                        | JoinType::LeftMark
+                        | JoinType::RightSemi
+                        | JoinType::RightAnti
+                        | JoinType::RightMark
+                ) =>
+            {
+                return not_impl_err!(
+                    "UPDATE / DELETE with a subquery in the WHERE clause is not supported"
+                );
             }
             // Plans without filter information
             LogicalPlan::EmptyRelation(_)
@@ -2323,6 +2356,27 @@ fn extract_dml_filters(
             }
             Ok(deduped)
         })
+}
+
+/// Returns true if the DML input is an `EmptyRelation` that produces no row,
+/// possibly below nodes that cannot add rows.
+fn dml_input_produces_no_rows(input: &LogicalPlan) -> bool {
+    let mut plan = input;
+    loop {
+        match plan {
+            LogicalPlan::EmptyRelation(empty) => return !empty.produce_one_row,
+            LogicalPlan::Projection(_)
+            | LogicalPlan::Filter(_)
+            | LogicalPlan::SubqueryAlias(_)
+            | LogicalPlan::Sort(_)
+            | LogicalPlan::Limit(_)
+            | LogicalPlan::Repartition(_) => match plan.inputs().first() {
+                Some(child) => plan = child,
+                None => return false,
+            },
+            _ => return false,
+        }
+    }
 }
 
 /// Determine whether a predicate references only columns from the target table
